@@ -8,7 +8,7 @@ compares it with the table row.  A wrapper missing from the table, or a row with
 wrapper, is a checker error (fail closed), not a verdict.
 """
 from . import mir, canon
-from .base import (inst, OK, VIOLATION, UNDECIDED, P, C, F, K, ANY, Agg, Contains, match, strip,
+from .base import (inst, OK, VIOLATION, UNDECIDED, P, C, F, K, ANY, Agg, Alt, Contains, match, strip,
                    callee_is, fn_key, verdict_of, errtext)
 from .facts import CheckerError
 from .mir import show
@@ -31,7 +31,8 @@ TABLE = {
     "robdd_model_count": dict(
         ret=C("FiniteField::value",
               C(DD + "::unsmoothed_wmc",
-                C(ROB + "::smooth", P(1), P(2), C(ROB + "::num_vars", P(1))), ANY())),
+                Alt(C(ROB + "::smooth", P(1), P(2), C(ROB + "::num_vars", P(1))),
+                    C(ROB + "::smooth_helper", P(1), P(2), K(0), C(ROB + "::num_vars", P(1)))), ANY())),
         entries=(C("VarLabel::new", ANY()), Agg("tuple", C("Semiring::one"), C("Semiring::one")))),
     "mk_bdd_manager_default_order": dict(ret=C(ROB + "::new", C("VarOrder::linear_order", P(1)))),
     "bdd_new_label": dict(ret=C("VarLabel::value", C(ROB + "::new_label", P(1)))),
